@@ -541,9 +541,17 @@ func (g *genState) dest(asset string, depth int) *Dest {
 	return &Dest{Kind: DstAccount, Acc: g.account("dstAcc", true)}
 }
 
+// EdgeAssets are literals around the boundary between the machine's lexer
+// rule ASSET: [A-Z/0-9]+ and the ledger's asset pattern.
+var EdgeAssets = []string{"A/", "/", "/2", "1", "2USD", "A//2", "USD/1234567", "ABCDEFGHIJKLMNOPQRS", "USD/", "U/S/D", "USD/2/", "0", "A/B", "USD/0", "A", "AB1/123456", "ABCDEFGHIJKLMNOPQ/6"}
+
 func (g *genState) send() Stmt {
 	asset := gen.Asset().Draw(g.t, "sendAsset")
-	st := Stmt{Kind: StSend, Asset: asset, DestFirst: g.pick("destFirst", 5) == 0}
+	if g.o.EdgeLiterals && g.pick("edgeAsset", 3) == 0 {
+		asset = rapid.SampledFrom(EdgeAssets).Draw(g.t, "edgeAssetLit")
+		g.p.Features["edge-asset"] = true
+	}
+	st := Stmt{Kind: StSend, Asset: asset, DestFirst: g.pick("destFirst", 5) == 0 && !g.o.Common}
 	if g.pick("sendAll", 5) == 0 {
 		st.All = true
 		st.AssetText = g.assetText(asset)
@@ -686,3 +694,7 @@ func (p *Program) FeatureList() []string {
 }
 
 func genAmount(t *rapid.T) *big.Int { return gen.Amount().Draw(t, "amount") }
+
+type bigInt = big.Int
+
+func newInt(v int64) *big.Int { return big.NewInt(v) }
